@@ -57,8 +57,8 @@ P = {
  "C08": (True, "conc", "runtime monitor over loader entry/exit intervals and call results of concurrent bursts (single-flight overlap rule, waiter results, every requested key of a BulkGet accounted for, exactly-one refresh message, no in-flight record left, stall watchdog with goroutine dump); race detector",
    "Held on the explored bursts of Get/BulkGet/Refresh/BulkRefresh over overlapping key sets with every loader outcome (value, error, ErrNotFound, panic, partial/extra bulk maps); pure-load bursts admit no overlap at all, mixed bursts admit an overlap only if a write or eviction activity can explain it.",
    "Termination is decided as bounded progress (no call completes for 40 s = stall, with the goroutine dump as witness); refresh tasks whose own loader panics are not awaited.", "4/C08"),
- "C09": (True, "conc", "loader-controlled scenario enumeration (load kind x write kind x write position, parked at the load.beforeInstall yield point) + jittered stress, oracle: a loaded value is never observed as current after an effective write called after the loader entry",
-   "Held on the explored scenarios and stress histories, except the recorded known finding D8 (a Set straddling the start of the load), which is reported from its deterministic witness only.",
+ "C09": (True, "conc", "loader-controlled scenario enumeration (load kind x write kind x write position, parked at the load.beforeInstall yield point) + straddle scenarios (the writer parked inside its Weigher / calculator / atomic handler, i.e. before publication, while the load starts) + jittered stress, oracle: a loaded value is never observed as current after an effective write called after the loader entry",
+   "Held on the explored scenarios and stress histories. Defect D8 (a write straddling the start of the load), first recorded as a known finding, was repaired in /repo (53c1460); its witness family stays in the check as a violation detector.",
    "A load is taken to be in flight from its loader entry (the latest start a black box can see), so the oracle never demands more than the statement.", "4/C09"),
  "C15": (True, "comp", "component stress of the real table (internal/hashmap through a verif-tag wrapper): porcupine per hot key, stable-key presence under growth/shrink, Range once-only / nothing removed before start, Size at quiescence, Clear; cache-level iteration under churn and InvalidateAll under write load; race detector (+ asan in the thorough tier)",
    "Held on the explored trials with churn goroutines that grow and shrink the table repeatedly and initial capacities from 0 to 10^4; observed growths/shrinks and chain lengths are reported.",
